@@ -551,12 +551,13 @@ int enumClockSync(unsigned job, unsigned jobs, unsigned depth) {
   unsigned long long seqs = 1;
   for (unsigned i = 0; i < depth; i++) seqs *= nOps;
   unsigned long long traces = 0, idx = 0;
-  for (unsigned c = 0; c < 4; c++) for (unsigned a = 0; a < 3; a++) for (unsigned p = 0; p < 64; p++, idx++) {
+  for (unsigned pr = 0; pr < 2; pr++) for (unsigned c = 0; c < 4; c++) for (unsigned a = 0; a < 3; a++) for (unsigned p = 0; p < 64; p++, idx++) {
     if (idx % jobs != job) continue;
     if (a == 2 && p != 0) continue;   // no reference: the request outcomes do not matter
+    if (a == 2 && pr != 0) continue;  // no reference: the primary is never probed around loop() anyway
     for (unsigned long long sidx = 0; sidx < seqs; sidx++) {
       Trace tr; tr.profile = "clock-sync";
-      tr.lines.push_back(fmt("CFG CLOCK %s %s boot=4294960000 refbase=650000000 rtc=650000000", kCfgs[c], kArr[a]));
+      tr.lines.push_back(fmt("CFG CLOCK %s %s boot=4294960000 refbase=650000000 rtc=650000000 probe=%u", kCfgs[c], kArr[a], 1 - pr));
       for (unsigned k = 0; k < 3; k++) tr.lines.push_back(fmt("REF %u %s", k, kPlans[(p >> (2 * k)) & 3]));
       unsigned long long x = sidx;
       for (unsigned i = 0; i < depth; i++) { tr.lines.push_back(kOps[x % nOps]); x /= nOps; }
